@@ -5,7 +5,5 @@ CONSTANTS
   ContractView = "committed"
   NilOnAbsent <- NoDeviation
 VIEW view
-INVARIANTS TypeOK Total NoNilHandle HandleRefOK Defined
-CONSTRAINT InitOut
-ACTION_CONSTRAINT Edge
+INVARIANTS TypeOK Total NoNilHandle HandleRefOK Defined NilOnlyByDeviation
 CHECK_DEADLOCK FALSE
